@@ -22,6 +22,7 @@
 #include "oomd/Stats.h"
 #include "oomd/config/ConfigCompiler.h"
 #include "oomd/config/JsonConfigParser.h"
+#include "oomd/dropin/DropInServiceAdaptor.h"
 #include "oomd/include/CoreStats.h"
 #include "vh.h"
 
@@ -95,6 +96,7 @@ void setup_world(const Json::Value& scn, const std::string& tag) {
   }
   g.xattr_fail = scn.get("xattr_fail", "").asString();
   g.dtype_unknown = scn.get("dtype_unknown", false).asBool();
+  g.vanish_after_kill = scn.get("vanish_after_kill", false).asBool();
   g.record_opens = scn.get("record_opens", false).asBool();
   if (scn.isMember("file_faults")) {
     for (const auto& f : scn["file_faults"]) {
@@ -168,6 +170,61 @@ static void end_event(const std::string& outcome, const std::string& what, const
   e["accesses_last_tick"] = g.access_k;
   ev(e);
   flush_trace();
+}
+
+// drop-in requests scripted per tick: {"dropins":[{"op":"add","tag":T,"config":{...}} | {"op":"remove","tag":T}]}. They go through
+// the real DropInServiceAdaptor (schedule* + updateDropIns) at the point of the main loop where Oomd::run() calls updateDropIns().
+class SimAdaptor : public Oomd::DropInServiceAdaptor {
+ public:
+  using Oomd::DropInServiceAdaptor::DropInServiceAdaptor;
+  using Oomd::DropInServiceAdaptor::scheduleDropInAdd;
+  using Oomd::DropInServiceAdaptor::scheduleDropInRemove;
+
+ protected:
+  void tick() override {}
+  void handleDropInAddResult(const std::string& tag, bool ok) override {
+    Json::Value e;
+    e["ev"] = "dropin_result";
+    e["op"] = "add";
+    e["tag"] = tag;
+    e["ok"] = ok;
+    ev(e);
+  }
+  void handleDropInRemoveResult(const std::string& tag, bool ok) override {
+    Json::Value e;
+    e["ev"] = "dropin_result";
+    e["op"] = "remove";
+    e["tag"] = tag;
+    e["ok"] = ok;
+    ev(e);
+  }
+};
+static SimAdaptor* g_adaptor = nullptr;
+
+static void sim_tick_hook(int, const Json::Value& tk) {
+  if (!g_adaptor || !tk.isMember("dropins")) {
+    return;
+  }
+  for (const auto& op : tk["dropins"]) {
+    Json::Value e;
+    e["ev"] = "dropin";
+    e["op"] = op["op"];
+    e["tag"] = op["tag"];
+    if (op["op"].asString() == "add") {
+      std::unique_ptr<Oomd::Config2::IR::Root> dr;
+      try {
+        Oomd::Config2::JsonConfigParser parser;
+        dr = parser.parse(jstr(op["config"]));
+      } catch (const std::exception&) {
+      }
+      e["parsed"] = dr != nullptr;
+      e["sched"] = dr ? g_adaptor->scheduleDropInAdd(op["tag"].asString(), *dr) : false;
+    } else {
+      g_adaptor->scheduleDropInRemove(op["tag"].asString());
+    }
+    ev(e);
+  }
+  g_adaptor->updateDropIns();
 }
 
 [[noreturn]] static void child_main(const Json::Value& scn, const std::string& outdir, int idx) {
@@ -258,6 +315,10 @@ static void end_event(const std::string& outcome, const std::string& what, const
 
   std::string outcome = "ok", what, type;
   {
+    // Oomd keeps both alive for its whole life; the adaptor holds references, as FsDropInService does
+    static SimAdaptor adaptor(g.cgroot, *ir, *engine);
+    g_adaptor = &adaptor;
+    g_tick_hook = sim_tick_hook;
     Oomd::Oomd oomd(std::move(ir), std::move(engine), interval, g.cgroot, "", io_devs, hdd, ssd);
     Json::Value e;
     e["ev"] = "armed";
